@@ -46,13 +46,18 @@ public:
         VState state = Writing;
         bool started = false;      ///< MemStore::write() accepted it (startCaching() returned)
         uint64_t deletedTick = 0;  ///< an eviction that certainly hit it returned at this tick
+        bool isUpdate = false;     ///< produced by MemStore::updateHeaders()
+        uint64_t updCloseTick = 0; ///< the update entered StoreMap::closeForUpdating() at this tick (0: not yet)
+        uint64_t updEndTick = 0;   ///< updateHeaders() returned at this tick (0: not yet)
     };
     struct Kept { StoreEntry *e = nullptr; int key = 0; int ver = 0; size_t seen = 0; uint64_t t0 = 0; };
     struct Worker {
         StoreEntry *writing = nullptr; int wver = 0; size_t fed = 0;
         std::deque<Kept> kept;
+        uint64_t evictStartTick = 0;
         bool evicting = false; int evictKey = -1; std::vector<int> evictTargets; bool evictDisturbed = false;
         bool starting = false; int startKey = -1;
+        int updatingVer = 0; ///< version being produced by an updateHeaders() call in progress
     };
 
     void setup(const CaseSpec &spec, Sched &s) override {
@@ -79,6 +84,8 @@ public:
             for (auto &op : t)
                 if (op[0] == 'U') updates = true;
         s.setClassPrefix(updates ? "upd-" : "");
+        current_ = this;
+        vsim::closeForUpdatingHook = &MemStoreHarness::NoteCloseForUpdating;
         ok_ = true;
         resetShared();
         vers_.clear();
@@ -89,6 +96,7 @@ public:
 
     ~MemStoreHarness() override {
         if (!finishedClean_) dirty_ = true; // abandoned tasks leave locks and half-done MemStore calls behind
+        if (current_ == this) { current_ = nullptr; vsim::closeForUpdatingHook = nullptr; }
     }
 
     void runTask(int t) override {
@@ -182,6 +190,16 @@ public:
     }
 
     unsigned yieldsPerOp() const override { return 40; }
+
+    static void NoteCloseForUpdating() {
+        MemStoreHarness *h = current_;
+        if (!h || !h->s_) return;
+        const int t = h->s_->currentTask();
+        if (t < 0) return;
+        Worker &w = h->w_[t];
+        if (w.updatingVer > 0) h->vers_[static_cast<size_t>(w.updatingVer)].updCloseTick = h->now();
+    }
+    static MemStoreHarness *current_;
 
 private:
     /* ---- shared segments: attached once, re-created in place for every case ---- */
@@ -476,6 +494,7 @@ private:
             nv.wire.assign(mb->content(), static_cast<size_t>(mb->contentSize()));
             delete mb;
             nv.wire.append(old.wire, hdrSz, std::string::npos);
+            nv.isUpdate = true;
             nv.state = Complete;
             nv.started = true; // may become visible to others at any instant from now on (or never, if the update is refused)
             vers_.push_back(nv);
@@ -485,7 +504,10 @@ private:
             e->key = const_cast<cache_key *>(keyOf(k.key));
             e->lock("shm_memstore update"); // StoreMapUpdate locks and unlocks the entry; without a holder of our own the unlock would destroy it
             now();
+            w.updatingVer = static_cast<int>(vers_.size()) - 1;
             store(t).updateHeaders(e);
+            vers_[static_cast<size_t>(w.updatingVer)].updEndTick = now();
+            w.updatingVer = 0;
             e->key = nullptr;
             vsim::probe("c19.header_updates");
             return;
@@ -509,7 +531,7 @@ private:
 
     void opEvict(int t, int j) {
         Worker &w = w_[t];
-        w.evicting = true; w.evictKey = j; w.evictDisturbed = false;
+        w.evicting = true; w.evictKey = j; w.evictDisturbed = false; w.evictStartTick = tick_;
         w.evictTargets.clear();
         for (auto &o : w_) if (o.starting && o.startKey == j) w.evictDisturbed = true; // setKey() may reset the mark
         for (size_t v = 1; v < vers_.size(); ++v)
@@ -522,6 +544,14 @@ private:
         const uint64_t at = now();
         for (int v : w.evictTargets) {
             Version &ver = vers_[static_cast<size_t>(v)];
+            // An updated edition is certainly covered by this eviction when the update had finished before the eviction began, or when the whole
+            // eviction happened before the update entered closeForUpdating() (which then must carry the deletion over to the fresh edition).
+            // An eviction that overlaps closeForUpdating() itself may legitimately miss the fresh edition (the race documented in that method).
+            if (ver.isUpdate) {
+                const bool finishedBefore = ver.updEndTick && ver.updEndTick < w.evictStartTick;
+                const bool evictedBeforeClosing = !ver.updCloseTick || ver.updCloseTick > at;
+                if (!finishedBefore && !evictedBeforeClosing) { vsim::probe("c19.evictions_overlapping_update_close"); continue; }
+            }
             if (!ver.deletedTick) { ver.deletedTick = at; vsim::probe("c19.certain_evictions"); }
         }
     }
@@ -543,5 +573,7 @@ bool MemStoreHarness::dirty_ = false;
 
 static Harness *makeMemStore() { return new MemStoreHarness; }
 static const bool registeredMs = (registerStructure("memstore", &makeMemStore), true);
+
+MemStoreHarness *MemStoreHarness::current_ = nullptr;
 
 } // namespace shm
